@@ -198,6 +198,9 @@ func (e *Engine) blockFor(pkgPath, key string) *Block {
 
 func (e *Engine) ifaceBlock(recvT types.Type, method string) *Block {
 	t := types.Unalias(recvT)
+	if tp, ok := t.(*types.TypeParam); ok {
+		t = types.Unalias(tp.Constraint()) // methods of a type parameter are those of its constraint
+	}
 	n, ok := t.(*types.Named)
 	if !ok || n.Obj().Pkg() == nil {
 		if ok && n.Obj().Pkg() == nil { // error
